@@ -17,6 +17,7 @@ sys.path.insert(0, os.path.join(os.path.dirname(os.path.abspath(__file__)),
 import calgen  # noqa: E402
 import physics  # noqa: E402
 import runner as R  # noqa: E402
+import termfile  # noqa: E402
 
 PROP = "C01"
 KAPPA_MAX = 1e4
@@ -34,6 +35,76 @@ def shapes_for(ctype, tier):
                 continue  # non-appliable shapes are checked through the file
             out.append((r, c))
     return out
+
+
+RECT = {True: [(1, 3), (2, 3), (1, 4), (2, 4), (3, 4)],
+        False: [(3, 1), (3, 2), (4, 1), (4, 2), (4, 3)]}
+
+
+def judge_file(sc, kappa, lines, res, text, part):
+    """shapes apply refuses: the saved terms must satisfy the documented
+    equation for every standard that was added"""
+    def bad(what, desc):
+        part["violations"].append(dict(
+            key="%s:%s:%s" % (PROP, what, sc.ctype),
+            desc="%s %dx%d F=%d form=%s: %s" % (sc.ctype, sc.r, sc.c, sc.F,
+                                                sc.form, desc),
+            script=text))
+    for i, ln in enumerate(lines["add"]):
+        e = res.ev(ln)
+        if e is None:
+            return False
+        if e.get("ret") != 0:
+            st = sc.stds[i]
+            bad("add-refused:" + st.entry, "valid standard refused: entry=%s "
+                "ports=%s full_rows=%s full_cols=%s -> %s" % (
+                    st.entry, st.ports, st.full_rows, st.full_cols, e))
+            return True
+    e = res.ev(lines["solve"])
+    if e is None:
+        return False
+    if e.get("ret") != 0:
+        bad("solve-failed", "solve failed on a sufficient set (kappa %.3g): "
+            "%s" % (kappa, e))
+        return True
+    e = res.ev(lines["save"])
+    t = res.ev(lines["read"])
+    if e is None or t is None or e.get("ret") != 0 or \
+            not isinstance(t.get("ret"), str):
+        bad("save-failed", "%s / %s" % (e, str(t)[:200]))
+        return True
+    try:
+        cals = termfile.load(t["ret"])
+        cal = cals[0]
+    except Exception as ex:   # noqa: BLE001
+        bad("file-unreadable", "independent reader cannot parse the saved "
+            "file: %r" % ex)
+        return True
+    if (cal["type"], cal["rows"], cal["columns"]) != (sc.ctype, sc.r, sc.c) \
+            or len(cal["freq"]) != sc.F:
+        bad("file-header", "saved header %s" % {k: cal[k] for k in
+                                                ("type", "rows", "columns")})
+        return True
+    worst = 0.0
+    for f in range(sc.F):
+        if cal["freq"][f] != sc.freqs[f]:
+            bad("file-frequency", "frequency %d saved as %r" % (f, cal["freq"][f]))
+            return True
+        for st in sc.stds:
+            S = st.S_full(f, sc.p)
+            M = sc.enet[f].measure(S)
+            rr = termfile.residual(sc.ctype, sc.r, sc.c, cal["terms"][f], S, M,
+                                   list(range(sc.p)))
+            if rr is not None:
+                worst = max(worst, rr)
+    rel = worst / (1e-9 * (1 + kappa))
+    part["maxima"]["max_file_residual_over_tol"] = max(
+        part["maxima"].get("max_file_residual_over_tol", 0.0), rel)
+    if not (rel <= 1.0):
+        bad("saved-terms-violate-equation", "the error terms in the saved file "
+            "do not satisfy the documented M/S equation for the added "
+            "standards: relative residual %.3g (kappa %.3g)" % (worst, kappa))
+    return True
 
 
 def gen_scenario(rng, ctype, r, c, F):
@@ -133,6 +204,10 @@ def work(chunk_id, payload):
         shapes = shapes_for(ctype, tier)
         wts = np.array([1.0 / (max(r, c) ** 2) for r, c in shapes])
         r, c = shapes[int(rng.choice(len(shapes), p=wts / wts.sum()))]
+        filecheck = False
+        if termfile.available() and rng.random() < 0.2:
+            r, c = RECT[ctype in physics.T_TYPES][int(rng.integers(0, 5))]
+            filecheck = True
         F = int(rng.choice([1, 1, 2, 3, 5, 7]))
         if max(r, c) >= 4:
             F = min(F, 2)
@@ -142,7 +217,13 @@ def work(chunk_id, payload):
                 "skipped_not_well_determined", 0) + 1
             continue
         sc.duts = sc.rand_dut()
+        sc.filecheck = filecheck
         s, lines = calgen.build_script(sc, sc.duts)
+        if filecheck:
+            s.op("vnacal_set_dprecision $vc 1000")
+            s.op("vnacal_set_fprecision $vc 1000")
+            lines["save"] = s.op("vnacal_save $vc \"c01.vnacal\"")
+            lines["read"] = s.op("read_file \"c01.vnacal\"")
         cid = "c%d_%d" % (chunk_id, k)
         cases.append((cid, s.text()))
         meta[cid] = (sc, kappa, lines)
@@ -154,7 +235,13 @@ def work(chunk_id, payload):
         v, inc = R.standard_violations(res, text, PROP)
         part["violations"] += v
         part["inconclusive"] += inc
-        done = judge(sc, kappa, lines, res, text, part, None)
+        if sc.filecheck:
+            done = judge_file(sc, kappa, lines, res, text, part)
+            if done:
+                cnt["file_equation_checks"] = cnt.get(
+                    "file_equation_checks", 0) + 1
+        else:
+            done = judge(sc, kappa, lines, res, text, part, None)
         if not done:
             continue
         part["evaluations"] += 1
